@@ -3,6 +3,7 @@ package main
 import (
 	"fmt"
 	"strconv"
+	"strings"
 
 	r69 "verif.local/h/ref6902"
 	rj "verif.local/h/refjson"
@@ -16,7 +17,7 @@ var Dq = []string{
 	`{"a":[1,null,{"x":true}],"b":"s"}`,
 	`[1,{"a":[2,3]},null]`,
 	`{"a/b":1,"m~n":{"a/b":[0]}}`,
-	`{"n":1.0,"e":1e400,"z":-0,"big":12345678901234567890123,"s":"é\n"}`,
+	"{\"n\":1.0,\"e\":1e400,\"z\":-0,\"big\":12345678901234567890123,\"s\":\"é\\n\u2068\u2069\u2027\u202a\"}",
 	`{"h":"<>&","<k>":{"x":"a<b"}}`,
 	`{}`,
 	`[]`,
@@ -25,6 +26,7 @@ var Dq = []string{
 	`[[1,2],[3]]`,
 	`{"b":2,"a":1,"c":{"z":1,"y":2}}`,
 	`{"~1":1,"/":2,"a~1b":{"~0":[1]},"a/b":{"~":[2]},"~01":3}`,
+	`{"":{"":1,"b":[{"":2}]},"a":{"b":3}}`,
 }
 
 // PatchValues V, simplest first.
@@ -48,6 +50,7 @@ type AlphaCfg struct {
 	NoRootPtr  bool // leave "" out (legacy domain: no root add / copy from "")
 	EnsureLen  int  // >0: the alphabet is SigmaEnsure(EnsureLen, Values) instead
 	NoRootAdd  bool // drop add "" and copy from "" (not offered by the legacy package)
+	InteriorNeg bool // also address the children of a last array element through the token -1 (negative index as an interior token)
 }
 
 type ptrInfo struct {
@@ -56,7 +59,7 @@ type ptrInfo struct {
 }
 
 // pointers lists P(D): every resolvable pointer plus the near-misses.
-func pointers(d *rj.Value) (all []ptrInfo, resolvable []ptrInfo) {
+func pointers(d *rj.Value, interiorNeg bool) (all []ptrInfo, resolvable []ptrInfo) {
 	var walk func(v *rj.Value, p string)
 	walk = func(v *rj.Value, p string) {
 		pi := ptrInfo{p, v}
@@ -78,6 +81,10 @@ func pointers(d *rj.Value) (all []ptrInfo, resolvable []ptrInfo) {
 				near = append(near, strconv.Itoa(-n))
 			}
 			near = append(near, strconv.Itoa(-(n + 1)), "x")
+			// the last element (if a container) reached through the negative token -1: interior negative index
+			if interiorNeg && n > 0 && (v.A[n-1].K == rj.Obj || v.A[n-1].K == rj.Arr) && !strings.Contains(p, "/-1") {
+				walk(v.A[n-1], p+"/-1")
+			}
 			for _, t := range near {
 				var node *rj.Value
 				if t[0] == '-' && t != "-" {
@@ -157,7 +164,7 @@ func Sigma(d *rj.Value, cfg *AlphaCfg) []r69.Op {
 	if cfg.EnsureLen > 0 {
 		return SigmaEnsure(cfg.EnsureLen, cfg.Values)
 	}
-	all, res := pointers(d)
+	all, res := pointers(d, cfg.InteriorNeg)
 	if cfg.NoRootPtr {
 		all, res = all[1:], res[1:]
 	}
